@@ -29,6 +29,8 @@ pub struct KState {
     pub threads: HashMap<ThreadId, ThreadRec>,
     /// Stable labels for the simulated threads (ThreadIds are not stable across processes).
     pub labels: HashMap<ThreadId, u64>,
+    /// Injected fault: the next `sched_setaffinity` of that thread fails with this errno.
+    pub fail_next_set: HashMap<ThreadId, i32>,
 }
 
 #[derive(Debug)]
@@ -64,6 +66,11 @@ impl SimKernel {
         self.st.lock().expect("kernel state").threads.get(&tid).cloned().unwrap_or_default()
     }
 
+    /// Arms the injected failure of the thread's next `sched_setaffinity` call.
+    pub fn fail_next_setaffinity(&self, tid: ThreadId, errno: i32) {
+        self.st.lock().expect("kernel state").fail_next_set.insert(tid, errno);
+    }
+
     pub fn affinity_of(&self, tid: ThreadId) -> Vec<u32> {
         self.rec(tid).affinity.unwrap_or_else(|| self.default_affinity.clone())
     }
@@ -75,6 +82,11 @@ impl SimBindings for SimKernel {
         // Independent decoding: raw bytes and their declared length only.
         let ids = decode_mask(mask);
         let mut st = self.st.lock().expect("kernel state");
+        let rec = st.threads.entry(tid).or_default();
+        if let Some(errno) = st.fail_next_set.remove(&tid) {
+            // The call is refused (cpuset shrank: EINVAL; not permitted: EPERM): nothing changes.
+            return Err(io::Error::from_raw_os_error(errno));
+        }
         let rec = st.threads.entry(tid).or_default();
         rec.set_calls.push((mask.len(), ids.clone()));
         // The kernel ignores bits beyond its own cpumask and refuses an empty result.
